@@ -45,7 +45,7 @@ def build_harness(ctx):
     return ctx.cc("h_c04", ["h_c04.c", str(lib)], libs=vlib.CODEC_LIBS)
 
 
-def run_impl(ctx, harness, lines, timeout=900):
+def run_impl(ctx, harness, lines, timeout=3600):
     """returns (outputs, crash) — crash = (index, rc, stderr) when the real code aborted"""
     text = "\n".join(lines) + "\n"
     try:
@@ -59,7 +59,7 @@ def run_impl(ctx, harness, lines, timeout=900):
 
 
 def run_model(ctx, lines):
-    return ctx.driver(["c04"], "\n".join(lines) + "\n")
+    return ctx.driver(["c04"], "\n".join(lines) + "\n", timeout=3600)
 
 
 # ------------------------------------------------------------------ numbers
@@ -588,6 +588,377 @@ def unit_headers(ctx, harness, stats):
     stats["evaluations"] += 2 * len(lines)
 
 
+# ------------------------------------------------------------------ reader side: generated members in every dialect
+def gen_sparse_map(rng, well_formed=True):
+    """(map, realsize, data) — data = concatenation of the data regions' bytes"""
+    n = rng.choice([1, 2, 3, 4, 5, 6, 20, 25, 26, 30, 47]) if rng.random() < 0.5 else rng.randint(1, 8)
+    off, m = 0, []
+    for _ in range(n):
+        off += rng.choice([0, 0, 1, 512, 513, 100, rng.randint(0, 700)])          # hole (0 = adjacent regions / data at start)
+        c = rng.choice([0, 1, 511, 512, 513, 100, rng.randint(0, 300)])
+        m.append((off, c))
+        off += c
+    real = off + rng.choice([0, 0, 1, 512, rng.randint(0, 600)])                  # hole at the end
+    if rng.random() < 0.4:
+        m.append((real, 0))                                                       # GNU tar's terminating zero-length entry
+    data = bytes(rng.randrange(1, 256) for _ in range(sum(c for _, c in m)))
+    if not well_formed:
+        k = rng.random()
+        if k < 0.3 and len(m) > 1:
+            rng.shuffle(m)
+        elif k < 0.6:
+            i = rng.randrange(len(m)); m[i] = (m[i][0], m[i][1] + rng.choice([1, 512, 5000]))      # region longer than the data that follows
+        elif k < 0.8:
+            real = max(0, real - rng.choice([1, 100, real]))
+        else:
+            i = rng.randrange(len(m)); m[i] = (max(0, m[i][0] - rng.choice([1, 50])), m[i][1])       # overlap
+    return m, real, data
+
+
+def spec_expand(m, real, data):
+    """independent statement of the expansion: `real` bytes, data regions in order at their offsets, zero elsewhere"""
+    out = bytearray(real)
+    pos = 0
+    for o, c in m:
+        out[o:o + c] = data[pos:pos + c]
+        pos += c
+    return bytes(out[:real])
+
+
+def sparse_member(rng, name, m, real, data, dialect):
+    """one sparse file in the chosen dialect -> bytes"""
+    if dialect == "old":
+        tail = bytearray(167)                                 # gnu tail: atime(12) ctime(12) offset(12) deprecated(4) unused(1) sparse[4](96) isext(1) realsize(12)
+        ents = m[:4]
+        for i, (o, c) in enumerate(ents):
+            tail[41 + 24 * i:41 + 24 * i + 12] = encnum(o, 12, "term")
+            tail[41 + 24 * i + 12:41 + 24 * i + 24] = encnum(c, 12, "term")
+        rest = m[4:]
+        tail[137] = 1 if rest else 0
+        tail[138:150] = encnum(real, 12, "term")
+        out = mk_header(name=name, size=len(data), typeflag=b"S", dialect="gnu", tail=bytes(tail), mtime=1542905892)
+        while rest:
+            blk = bytearray(512)
+            for i, (o, c) in enumerate(rest[:21]):
+                blk[24 * i:24 * i + 12] = encnum(o, 12, "term")
+                blk[24 * i + 12:24 * i + 24] = encnum(c, 12, "term")
+            rest = rest[21:]
+            blk[504] = 1 if rest else 0
+            out += bytes(blk)
+        return out + pad512(data)
+    if dialect == "0.0":
+        recs = [pax_record(b"GNU.sparse.size", str(real).encode()), pax_record(b"GNU.sparse.numblocks", str(len(m)).encode())]
+        for o, c in m:
+            recs += [pax_record(b"GNU.sparse.offset", str(o).encode()), pax_record(b"GNU.sparse.numbytes", str(c).encode())]
+        return pax_member(recs) + mk_header(name=name, size=len(data), mtime=1542905892) + pad512(data)
+    if dialect == "0.1":
+        recs = [pax_record(b"GNU.sparse.size", str(real).encode()), pax_record(b"GNU.sparse.numblocks", str(len(m)).encode()),
+                pax_record(b"GNU.sparse.name", name), pax_record(b"GNU.sparse.map", ",".join("%d,%d" % e for e in m).encode())]
+        return pax_member(recs) + mk_header(name=b"GNUSparseFile.0/x", size=len(data), mtime=1542905892) + pad512(data)
+    # 1.0: the map is a decimal text block in front of the data, padded to 512
+    txt = ("%d\n" % len(m) + "".join("%d\n%d\n" % e for e in m)).encode()
+    blob = pad512(txt) + data
+    recs = [pax_record(b"GNU.sparse.major", b"1"), pax_record(b"GNU.sparse.minor", b"0"), pax_record(b"GNU.sparse.name", name),
+            pax_record(b"GNU.sparse.realsize", str(real).encode())]
+    return pax_member(recs) + mk_header(name=b"GNUSparseFile.0/x", size=len(blob), mtime=1542905892) + pad512(blob)
+
+
+def b64_libarchive(rng, v):
+    import base64
+    t = base64.b64encode(v)
+    r = rng.random()
+    if r < 0.4:
+        t = t.rstrip(b"=")                                    # libarchive drops the padding
+    elif r < 0.5:
+        t = t.replace(b"=", b"_").replace(b"/", b"-")
+    return t
+
+
+def url_enc(rng, k):
+    out = bytearray()
+    for c in k:
+        if c in b"%= \n" or c >= 0x7f or rng.random() < 0.1:
+            out += b"%%%02X" % c if rng.random() < 0.5 else b"%%%02x" % c
+        else:
+            out.append(c)
+    return bytes(out)
+
+
+def gen_reader_member(rng):
+    """(bytes, expectation or None, class).  expectation: dict of the fields a correct reader must report."""
+    r = rng.random()
+    style = rng.choice(["term", "term", "nul", "lead", "short", "noterm", "b256"])
+    uid = rng.choice(NUM_VALUES); gid = rng.choice(NUM_VALUES); mtime = rng.choice(MTIMES)
+    if style == "noterm":
+        uid %= 1 << 24; gid %= 1 << 24
+    if r < 0.30:                                              # plain header in one of the four magic dialects
+        dialect = rng.choice(["v7", "ustar", "ustar", "prepos"])
+        tf = rng.choice([b"0", b"0", b"\0", b"1", b"2", b"3", b"4", b"5", b"6", b"7", b"D", b"V"])
+        nlen = rng.choice([1, 50, 99, 100])
+        name = gen_name(rng, nlen)
+        prefix = b""
+        if dialect == "ustar" and rng.random() < 0.6:
+            prefix = gen_name(rng, rng.choice([1, 100, 154, 155]))
+        elif rng.random() < 0.2:
+            prefix = gen_name(rng, 30)                        # v7 / pre-POSIX: the prefix area is not a prefix
+        link = gen_name(rng, rng.choice([1, 99, 100])) if tf in (b"1", b"2") else b""
+        size = rng.choice([0, 1, 511, 512, 513, 1024]) if tf in (b"0", b"\0", b"7", b"D") else 0
+        if mtime < 0 and style != "b256":
+            mtime = -mtime
+        maj, minr = (rng.choice([0, 1, 255, 4095]), rng.choice([0, 255, 256, (1 << 20) - 1])) if tf in (b"3", b"4") else (0, 0)
+        mode = rng.choice([0o644, 0o755, 0o7777, 0, 0o100644, 0o177777 & ~0o170000 | 0o100000])
+        if uid >= 1 << 56 or gid >= 1 << 56:
+            uid %= 1 << 56; gid %= 1 << 56
+        h = mk_header(name=name, mode=mode, uid=uid, gid=gid, size=size, mtime=mtime, typeflag=tf, linkname=link, dialect=dialect, prefix=prefix,
+                      maj=maj, minr=minr, style=style if dialect != "v7" or style != "b256" else "term")
+        data = bytes(rng.randrange(256) for _ in range(size))
+        full = prefix + b"/" + name if (prefix and dialect == "ustar") else name
+        if dialect == "v7":
+            maj, minr = 0, 0                                   # a v7 header has no device fields
+        exp = dict(name=full, uid=uid, gid=gid, mtime=mtime, size=size, tf=tf, link=link, data=data, perm=mode & 0o7777, maj=maj, min=minr)
+        return h + pad512(data), exp, "plain-" + dialect
+    if r < 0.42:                                              # GNU long name / link
+        nl = rng.choice([100, 101, 155, 256, 257, 1000, 4096, 65535])
+        name = gen_name(rng, nl)
+        tf = rng.choice([b"0", b"2", b"1", b"5"])
+        pre = gnu_long(b"L", name, nul=rng.random() < 0.8)
+        link = b""
+        if tf in (b"1", b"2"):
+            link = gen_name(rng, rng.choice([50, 100, 101, 256, 1000]))
+            if len(link) >= 100 or rng.random() < 0.3:
+                k = gnu_long(b"K", link, nul=rng.random() < 0.8)
+                pre = (k + pre) if rng.random() < 0.5 else (pre + k)
+        size = rng.choice([0, 5, 512]) if tf == b"0" else 0
+        data = bytes(rng.randrange(256) for _ in range(size))
+        h = mk_header(name=name[:100], uid=uid % (1 << 21), gid=gid % (1 << 21), size=size, mtime=abs(mtime) % (1 << 33), typeflag=tf, linkname=link[:100], dialect="gnu")
+        exp = dict(name=name, uid=uid % (1 << 21), gid=gid % (1 << 21), mtime=abs(mtime) % (1 << 33), size=size, tf=tf, link=link, data=data, perm=0o644, maj=0, min=0)
+        return pre + h + pad512(data), exp, "gnu-long"
+    if r < 0.50:                                              # GNU long records with sizes at the accepted limits / malformed
+        sz = rng.choice([0, 1, 65536, 65537, 1 << 33])
+        tfx = rng.choice([b"L", b"K", b"x"])
+        h = mk_header(name=b"././@LongLink", size=sz, typeflag=tfx, dialect="gnu") + pad512(b"a" * min(sz, 70000))
+        return h + mk_header(name=b"after", dialect="gnu"), None, "ext-size-limits"
+    if r < 0.75:                                              # PAX records
+        recs, exp_over = [], {}
+        name = gen_name(rng, rng.choice([1, 99, 100, 101, 256, 1000]))
+        tf = rng.choice([b"0", b"0", b"2", b"1", b"5"])
+        link = gen_name(rng, rng.choice([5, 100, 300])) if tf in (b"1", b"2") else b""
+        size = rng.choice([0, 7, 512, 600]) if tf == b"0" else 0
+        if rng.random() < 0.7:
+            recs.append(pax_record(b"path", name)); exp_over["name"] = name
+        if link and rng.random() < 0.7:
+            recs.append(pax_record(b"linkpath", link)); exp_over["link"] = link
+        if rng.random() < 0.5:
+            recs.append(pax_record(b"uid", str(uid).encode())); exp_over["uid"] = uid
+        if rng.random() < 0.5:
+            recs.append(pax_record(b"gid", str(gid).encode())); exp_over["gid"] = gid
+        if rng.random() < 0.5:
+            frac = rng.choice([b"", b"", b".5", b".123456789", b".0"])
+            recs.append(pax_record(b"mtime", str(mtime).encode() + frac)); exp_over["mtime"] = mtime
+        if size and rng.random() < 0.3:
+            recs.append(pax_record(b"size", str(size).encode()))
+        xat = []
+        for _ in range(rng.choice([0, 0, 1, 2, 3])):
+            k = rng.choice([b"user.", b"security.", b"trusted.", b"system.posix_acl_"]) + bytes(rng.choice(b"abcXYZ_.09 %=") for _ in range(rng.randint(1, 20)))
+            v = bytes(rng.choice([0, 10, 61, 32, 0xff, rng.randrange(256)]) for _ in range(rng.choice([0, 1, 2, 3, 4, 5, 17, 100])))
+            if rng.random() < 0.5 and b"=" not in k:
+                recs.append(pax_record(b"SCHILY.xattr." + k, v))
+            else:
+                recs.append(pax_record(b"LIBARCHIVE.xattr." + url_enc(rng, k), b64_libarchive(rng, v)))
+            xat.append((k, v))
+        for _ in range(rng.choice([0, 0, 1])):
+            recs.append(pax_record(rng.choice([b"atime", b"ctime", b"comment", b"SCHILY.dev", b"uname", b"GNU.sparse.numblocks", b"hdrcharset"]), b"12345.678"))
+        rng.shuffle(recs)
+        if not recs:
+            recs.append(pax_record(b"comment", b"x"))          # an empty 'x' payload is refused by read_header (size < 1): documented choice
+        pre = b""
+        if rng.random() < 0.2:
+            pre = pax_member([pax_record(b"comment", b"global"), pax_record(b"mtime", b"7")], name=b"pax_global_header", typeflag=b"g")
+        huid, hgid, hmt = rng.choice([0, 1000, (1 << 21) - 1]), rng.choice([0, 1000]), rng.choice([0, 1542905892])
+        h = mk_header(name=name[:100], uid=huid, gid=hgid, size=size, mtime=hmt, typeflag=tf, linkname=link[:100], dialect="ustar")
+        data = bytes(rng.randrange(256) for _ in range(size))
+        exp = dict(name=name[:100], uid=huid, gid=hgid, mtime=hmt, size=size, tf=tf, link=link[:100], data=data, perm=0o644, maj=0, min=0, xattr=xat)
+        exp.update(exp_over)
+        if b"\0" in b"".join(k for k, _ in xat):
+            exp = None
+        return pre + pax_member(recs) + h + pad512(data), exp, "pax"
+    if r < 0.82:                                              # malformed PAX payloads
+        body = rng.choice([
+            b"", b"0 a=b\n", b"-5 a=b\n", b"+7 a=b\n", b"7a=b\n", b"6 a=b\n\n", b"99 path=x\n", b" 7 a=b\n", b"7  a=b\n", b"0007 a=b\n", b"5 =b\n", b"6 ab\nc\n",
+            b"12 uid=abc\n", b"11 uid=-1\n", b"30 uid=18446744073709551616\n", b"30 uid=18446744073709551609\n", b"30 uid=18446744073709551610\n",
+            b"24 mtime=9223372036854775807\n"[:0] + pax_record(b"mtime", b"9223372036854775807"), pax_record(b"mtime", b"9223372036854775806"), pax_record(b"mtime", b"-9223372036854775806"),
+            pax_record(b"mtime", b"--1"), pax_record(b"mtime", b".5"), pax_record(b"size", b"12x"), pax_record(b"path", b"a\0b"), pax_record(b"path", b""),
+            pax_record(b"LIBARCHIVE.xattr.user.x", b"!!!!"), pax_record(b"LIBARCHIVE.xattr.user.x", b"QQ"), pax_record(b"LIBARCHIVE.xattr.user.x", b"Q"),
+            pax_record(b"LIBARCHIVE.xattr.user.x", b"QUJD"), pax_record(b"LIBARCHIVE.xattr.user.x", b"QUI="), pax_record(b"LIBARCHIVE.xattr.user.x", b"QUI=QUJD"),
+            pax_record(b"LIBARCHIVE.xattr.user%2", b"QUJD"), pax_record(b"LIBARCHIVE.xattr.user%zz%41", b"QUJDRA"), pax_record(b"LIBARCHIVE.xattr.", b"QUJD"),
+            pax_record(b"SCHILY.xattr.", b"v"), pax_record(b"SCHILY.xattrx", b"v"), pax_record(b"SCHILY.xattr", b"v"),
+            pax_record(b"GNU.sparse.map", b"1,2,3"), pax_record(b"GNU.sparse.map", b"1,2,"), pax_record(b"GNU.sparse.map", b"1,2x"), pax_record(b"GNU.sparse.map", b""),
+            pax_record(b"GNU.sparse.numbytes", b"5"), pax_record(b"GNU.sparse.offset", b"x"),
+            pax_record(b"path", b"abc") + b"\0\0\0", pax_record(b"path", b"abc")[:-1], pax_record(b"path", b"abc", length=14), pax_record(b"path", b"abc", length=12),
+            bytes(rng.randrange(256) for _ in range(rng.randint(1, 40))),
+        ])
+        h = mk_header(name=b"pax/x", size=len(body), typeflag=b"x", dialect="ustar") + pad512(body)
+        return h + mk_header(name=b"member", size=3, dialect="ustar") + pad512(b"abc"), None, "pax-malformed"
+    if r < 0.97:                                              # sparse files
+        wf = rng.random() < 0.75
+        m, real, data = gen_sparse_map(rng, wf)
+        dialect = rng.choice(["old", "0.0", "0.1", "1.0"])
+        name = gen_name(rng, rng.choice([5, 60]))
+        exp = dict(name=name, size=real, tf=b"0", sparse=m, data=spec_expand(m, real, data), uid=0, gid=0, mtime=1542905892, link=b"", perm=0o644, maj=0, min=0) if wf else None
+        return sparse_member(rng, name, m, real, data, dialect), exp, "sparse-" + dialect + ("" if wf else "-malformed")
+    # header level damage
+    k = rng.choice(["badsum", "junkmagic", "zero", "short"])
+    if k == "badsum":
+        return mk_header(name=b"x", bad_checksum=True), None, "bad-checksum"
+    if k == "junkmagic":
+        return mk_header(name=b"x", dialect="junk"), None, "bad-magic"
+    if k == "zero":
+        return b"\0" * 512, None, "single-zero-block"
+    return mk_header(name=b"trunc", size=1000) + b"abc", None, "truncated-data"
+
+
+def monitor_decoded(exp, d):
+    """specification of read_header evaluated on the implementation's answer for a well-formed member"""
+    bad = []
+    if d is None:
+        return ["rejected"]
+    def hx(t):
+        return None if t == "null" else untok(t)
+    if hx(d["name"]) != exp["name"]:
+        bad.append("name")
+    if exp["tf"] in (b"1", b"2") and hx(d["link"]) != exp["link"]:
+        bad.append("link")
+    for k in ("uid", "gid", "mtime"):
+        if int(d[k]) != exp[k]:
+            bad.append(k)
+    if exp["tf"] in (b"0", b"\0") and int(d["asize"]) != exp["size"]:
+        bad.append("size")
+    if exp["tf"] in (b"3", b"4") and (int(d["maj"]) != exp["maj"] or int(d["min"]) != exp["min"]):
+        bad.append("devno")
+    if "xattr" in exp:
+        got = [] if d["xattr"] == "-" else [tuple(untok(t) for t in p.split(":")) for p in d["xattr"].split(",")]
+        if sorted(got) != sorted(exp["xattr"]):
+            bad.append("xattr")
+    if "sparse" in exp:
+        got = [] if d["sparse"] == "-" else [tuple(int(x) for x in p.split(":")) for p in d["sparse"].split(",")]
+        if got != exp["sparse"]:
+            bad.append("sparse-map")
+    return bad
+
+
+def parse_iter(line):
+    """iter output -> (entries as dicts, end)"""
+    parts = line.split(" | ")
+    ents = []
+    for p in parts[:-1]:
+        d = {}
+        for kv in p.split():
+            k, _, v = kv.partition("=")
+            d[k] = v
+        ents.append(d)
+    return ents, parts[-1]
+
+
+def unit_reader(ctx, harness, stats):
+    rng = ctx.rng
+    n = 2500 if ctx.quick() else 40000
+    members = [gen_reader_member(rng) for _ in range(n)]
+    cdir = vlib.CORPUS / "C04"
+    seeds = sorted((vlib.REPO / "lib/tar/test/data").glob("*/*.tar")) + sorted(cdir.glob("*.tar"))
+    seed_streams = [p.read_bytes() for p in seeds if p.stat().st_size < 3000000]
+    lines = ["dec " + tok(b + b"\0" * 1024) for b, _, _ in members] + ["dec " + tok(s) for s in seed_streams]
+    impl, crash = run_impl(ctx, harness, lines)
+    if crash:
+        k, rc, err = crash
+        ctx.violation("crash:dec", "read_header aborted (rc=%s): %s" % (rc, err[-400:]), {"unit": [lines[min(k, len(lines) - 1)]], "stderr": err})
+        return
+    model = run_model(ctx, lines)
+    cur = run_model(ctx, ["deccur" + l[3:] for l in lines])
+    hist, d22 = {}, 0
+    for i, l in enumerate(lines):
+        b, exp, cls = members[i] if i < len(members) else (None, None, "seed-archive")
+        hist[cls] = hist.get(cls, 0) + 1
+        stats["nontrivial"].add(("dec", vlib.sha(l)[:16]))
+        bad = monitor_decoded(exp, parse_dec(impl[i])) if exp is not None else []
+        if impl[i] == model[i]:
+            if bad:
+                stats["disagreements_checked"] += 1
+                report(ctx, "dec-spec", "dec-spec:%s:%s" % (cls, "+".join(bad)), "read_header decodes a well-formed %s member wrongly (%s): %s" % (cls, bad, impl[i][:300]),
+                       {"unit": [l]})
+            continue
+        stats["disagreements_checked"] += 1
+        if impl[i] == cur[i] and model[i] == "err" and impl[i].startswith("ok "):
+            d22 += 1
+            ctx.violation(KEY_D22, "read_header accepts a sparse map whose data regions exceed the record size (%s)" % impl[i][:200], {"unit": [l]})
+        else:
+            report(ctx, "dec-corr", "dec:" + vlib.sha(l)[:12], "read_header: model and code differ on a %s member: impl=%s model=%s" % (cls, impl[i][:300], model[i][:300]),
+                   {"unit": [l]}, found_input=bool(bad))
+    stats["evaluations"] += 3 * len(lines)
+    stats["dec_members"] = len(lines)
+    stats["dec_classes"] = hist
+    stats["dec_known_d22_seen"] = d22
+    stats["samples"].append({"op": "dec <%s member, %d bytes>" % (members[1][2], len(members[1][0])), "impl": impl[1][:300]})
+
+    # whole archives through the iterator (sparse expansion, record/padding accounting)
+    archives = []
+    for _ in range(400 if ctx.quick() else 6000):
+        k = rng.randint(1, 5)
+        ms = [gen_reader_member(rng) for _ in range(k)]
+        if rng.random() < 0.7:
+            ms = [m for m in ms if m[1] is not None or m[2].startswith("sparse")] or ms
+        body = b"".join(m[0] for m in ms)
+        end = rng.choice([b"\0" * 1024, b"\0" * 1024, b"\0" * 512, b"", b"\0" * 10240])
+        archives.append((body + end, ms))
+    lines = ["iter " + tok(a) for a, _ in archives] + ["iter " + tok(s) for s in seed_streams]
+    impl, crash = run_impl(ctx, harness, lines)
+    if crash:
+        k, rc, err = crash
+        ctx.violation("crash:iter", "tar iterator aborted (rc=%s): %s" % (rc, err[-400:]), {"unit": [lines[min(k, len(lines) - 1)]], "stderr": err})
+        return
+    model = run_model(ctx, lines)
+    cur = run_model(ctx, ["itercur" + l[4:] for l in lines])
+    nsparse = 0
+    for i, l in enumerate(lines):
+        ms = archives[i][1] if i < len(archives) else []
+        stats["nontrivial"].add(("iter", vlib.sha(l)[:16]))
+        # specification on the implementation: every well-formed member (all members well-formed) is delivered with its data expanded
+        bad = []
+        if ms and all(m[1] is not None for m in ms):
+            ents, end = parse_iter(impl[i])
+            want = [m[1] for m in ms if m[1]["tf"] in (b"0", b"\0", b"1", b"2", b"3", b"4", b"5", b"6")]
+            if len(ents) != len(want):
+                bad.append("entry-count %d != %d" % (len(ents), len(want)))
+            else:
+                for e, w in zip(ents, want):
+                    if w["tf"] in (b"0", b"\0"):
+                        if "sparse" in w:
+                            nsparse += 1
+                        if e.get("data") == "big":
+                            if int(e.get("len", -1)) != len(w["data"]):
+                                bad.append("length of %r" % w["name"][:20])
+                            continue
+                        got = untok(e.get("data", "")) if e.get("data", "corrupted") != "corrupted" else None
+                        if got is None or got != w["data"] or int(e.get("len", -1)) != len(w["data"]):
+                            bad.append("data of %r" % w["name"][:20])
+            if end != "end=1":
+                bad.append("end")
+        if impl[i] == model[i]:
+            if bad:
+                stats["disagreements_checked"] += 1
+                report(ctx, "iter-spec", "iter-spec:" + vlib.sha(l)[:12], "tar iterator mishandles a well-formed archive (%s)" % bad, {"unit": [l]})
+            continue
+        stats["disagreements_checked"] += 1
+        if impl[i] == cur[i]:
+            ctx.violation(KEY_D22, "sparse data larger than the record: record_size wraps, following members are swallowed/skipped (iterator output %s…)" % impl[i][:160],
+                          {"unit": [l]})
+        else:
+            report(ctx, "iter-corr", "iter:" + vlib.sha(l)[:12], "tar iterator: model and code differ: impl=%s model=%s" % (impl[i][:300], model[i][:300]),
+                   {"unit": [l]}, found_input=bool(bad))
+    stats["evaluations"] += 3 * len(lines)
+    stats["iter_archives"] = len(lines)
+    stats["iter_sparse_files_checked_against_spec"] = nsparse
+
+
 # ------------------------------------------------------------------ entry points
 def run(ctx):
     ok, problems = vlib.proof_gate(ctx, MODULE, REQUIRED)
@@ -597,7 +968,7 @@ def run(ctx):
     stats = {"evaluations": 0, "disagreements_checked": 0, "nontrivial": set(), "samples": []}
     t0 = time.time()
     harness = build_harness(ctx)
-    for fn in (unit_numbers, unit_checksum, unit_headers):
+    for fn in (unit_numbers, unit_checksum, unit_headers, unit_reader):
         t1 = time.time()
         fn(ctx, harness, stats)
         ctx.log("%s: %.1fs" % (fn.__name__, time.time() - t1))
